@@ -1407,6 +1407,159 @@ fn long_session_trace(prop: &str, seed: u64) -> Trace {
     }
 }
 
+/// Two addresses that differ as little as addresses can (identifiers that collide in one of the
+/// key forms: padded, cut at 182 bytes, length taken modulo 256, trailing NULs; a neighbouring
+/// kind; another author) and a history that plays them against each other: versions older and
+/// newer than the holder, deletions of the one or the other by address and by id (own and
+/// foreign), resubmissions, removals, with every kind of restart and rebuild in between. What
+/// happens to one address must never show at the other, before or after a restart.
+fn pair_duel_trace(prop: &str, seed: u64) -> Trace {
+    let mut p = profile(prop);
+    p.size_w = [40, 60, 0, 0, 0];
+    let mut g = Gen::new(seed, p);
+    let pk = g.authors[0];
+    let pk2 = g.authors[1];
+    let q182: String = "q".repeat(182);
+    let l300: String = (0..300).map(|i| (b'a' + (i % 23) as u8) as char).collect();
+    let m256: String = (0..256).map(|i| (b'A' + (i % 19) as u8) as char).collect();
+    let l477: String = (0..477).map(|i| (b'k' + (i % 7) as u8) as char).collect();
+    let pairs: Vec<(String, String)> = vec![
+        ("x".into(), "x\0".into()),
+        ("".into(), "\0".into()),
+        (q182.clone(), format!("{q182}a")),
+        (format!("{q182}a"), format!("{q182}b")),
+        (q182.clone(), format!("{q182}\0")),
+        (format!("{q182}\0\0"), format!("{q182}\0")),
+        (l300.clone(), l300[..44].to_string()),
+        (l300.clone(), l300[..182].to_string()),
+        (l300.clone(), l300[..255].to_string()),
+        (m256.clone(), "".into()),
+        (m256.clone(), m256[..255].to_string()),
+        (l477.clone(), l477[..476].to_string()),
+        (l477.clone(), l477[..221].to_string()),
+        ("a:b".into(), "a".into()),
+        ("x".into(), "X".into()),
+    ];
+    let (da, db) = g.rng.pick(&pairs).clone();
+    // the two addresses: mostly the identifier differs; now and then the kind or the author
+    let kind: u16 = *g.rng.pick(&[30000u16, 30001, 30023, 39999, 31234]);
+    let variant = g.rng.weighted(&[70, 10, 10, 10]);
+    let (ka, kb, pa, pb, da, db) = match variant {
+        0 => (kind, kind, pk, pk, da, db),
+        1 => (kind, if kind == 39999 { 39998 } else { kind + 1 }, pk, pk, da.clone(), da),
+        2 => (kind, kind, pk, pk2, da.clone(), da),
+        _ => {
+            // plain replaceable kinds next to each other (no identifier)
+            let k = *g.rng.pick(&[0u16, 3, 10000, 10002, 19999]);
+            let k2 = match k {
+                0 => 3,
+                3 => 0,
+                19999 => 19998,
+                x => x + 1,
+            };
+            (k, k2, pk, pk, String::new(), String::new())
+        }
+    };
+    let param = ka >= 30000;
+    let mk_version = |g: &mut Gen, k: u16, a: B32, d: &str, at: u64| -> EvSpec {
+        let mut tags: Vec<Vec<String>> = vec![];
+        if param {
+            tags.push(vec!["d".into(), d.to_string()]);
+        }
+        if g.rng.chance(1, 3) {
+            tags.push(vec!["t".into(), "duel".into()]);
+        }
+        EvSpec { id: g.rng.bytes32(), pk: a, kind: k, at, tags, content: vec![(at & 0xff) as u8; (at % 40) as usize] }
+    };
+    let atag = |k: u16, a: &B32, d: &str| -> Vec<String> { vec!["a".to_string(), format!("{}:{}:{}", k, hex(a), d)] };
+    let mut ops: Vec<Op> = vec![Op::Clock(Some(g.clock))];
+    let mut versions: Vec<EvSpec> = vec![];
+    // a little ordinary history first
+    for _ in 0..g.rng.range(0, 3) {
+        let e = g.new_event();
+        g.apply_store_to_gen_model(&e);
+        ops.push(Op::Store(e));
+    }
+    let n = g.rng.range(8, 20);
+    for _ in 0..n {
+        let side_a = g.rng.chance(1, 2);
+        let (k, a, d) = if side_a { (ka, pa, da.as_str()) } else { (kb, pb, db.as_str()) };
+        let at = T0 + g.rng.range(0, 12);
+        match g.rng.weighted(&[34, 22, 6, 10, 6, 22]) {
+            0 => {
+                let e = mk_version(&mut g, k, a, d, at);
+                g.apply_store_to_gen_model(&e);
+                versions.push(e.clone());
+                ops.push(Op::Store(e));
+            }
+            1 => {
+                // a deletion of the address by its author (now and then by the other side's
+                // author, or naming both addresses)
+                let by = if g.rng.chance(1, 8) { if a == pk { pk2 } else { pk } } else { a };
+                let mut tags = vec![atag(k, &a, d)];
+                if g.rng.chance(1, 6) {
+                    let (k2, a2, d2) = if side_a { (kb, pb, db.as_str()) } else { (ka, pa, da.as_str()) };
+                    if a2 == by {
+                        tags.push(atag(k2, &a2, d2));
+                    }
+                }
+                let e = EvSpec { id: g.rng.bytes32(), pk: by, kind: 5, at, tags, content: vec![] };
+                g.apply_store_to_gen_model(&e);
+                ops.push(Op::Store(e));
+            }
+            2 => {
+                // a deletion by id of one of the versions
+                if !versions.is_empty() {
+                    let v = g.rng.pick(&versions).clone();
+                    let e = EvSpec { id: g.rng.bytes32(), pk: v.pk, kind: 5, at: v.at.saturating_add(g.rng.below(3)), tags: vec![vec!["e".into(), hex(&v.id)]], content: vec![] };
+                    g.apply_store_to_gen_model(&e);
+                    ops.push(Op::Store(e));
+                }
+            }
+            3 => {
+                if !versions.is_empty() {
+                    let v = g.rng.pick(&versions).clone();
+                    g.apply_store_to_gen_model(&v);
+                    ops.push(Op::Store(v));
+                }
+            }
+            4 => {
+                if !versions.is_empty() {
+                    let id = g.rng.pick(&versions).id;
+                    let _ = g.model.apply_remove(&id);
+                    ops.push(Op::Remove(id));
+                }
+            }
+            _ => {
+                ops.push(match g.rng.weighted(&[20, 25, 20, 35]) {
+                    0 => Op::Reopen(ReopenKind::Drop),
+                    1 => Op::Reopen(ReopenKind::Close),
+                    2 => Op::Reopen(ReopenKind::Copy),
+                    _ => Op::Rebuild,
+                });
+            }
+        }
+    }
+    // and at the end every version once more: what is covered stays refused, what is not is judged
+    // by the ordinary rules
+    if g.rng.chance(1, 2) {
+        ops.push(Op::Rebuild);
+    }
+    let mut again = versions.clone();
+    g.rng.shuffle(&mut again);
+    for v in again.into_iter().take(6) {
+        g.apply_store_to_gen_model(&v);
+        ops.push(Op::Store(v));
+    }
+    Trace {
+        cfg: Cfg { prop: prop.to_string(), mode: Mode::Seq, seed, blocker: false, extra_tables: 0, obs_level: 1, drain: false },
+        ops,
+        threads: vec![],
+        schedule: vec![],
+        expect: None,
+    }
+}
+
 /// One dimension taken far beyond what the ordinary mixes reach: hundreds of tags in one event,
 /// of values in one tag or one filter list, values of kilobytes, a thousand events of one key
 /// or of one second, hundreds of versions at one address, of deletion requests, dozens of
@@ -1746,6 +1899,9 @@ pub fn generate(prop: &str, seed: u64) -> Trace {
     }
     if matches!(prop, "C04" | "C15") && seed % 32 == 1 {
         return long_session_trace(prop, seed);
+    }
+    if matches!(prop, "C09" | "C10" | "C11" | "C16") && seed % 16 == 5 {
+        return pair_duel_trace(prop, seed);
     }
     let mut p = profile(prop);
     if thorough() {
